@@ -533,6 +533,33 @@ def run_history(case):
             if lits and max(lits) > top:
                 raised_between = True
             top = max([top] + lits)
+        elif kind == 'add_clause_lazy':
+            # ONE clause given as a generator that allots variables on the same formula while it is consumed
+            # (and yields only some of them); model: the allotments happen, then the clause mentions what it mentions
+            st_ = {'top': top, 'err': None}
+
+            def lits_():
+                for it in a[0]:
+                    if isinstance(it, list):
+                        got = list(F.new_block(*it))
+                        if got and (got != list(range(got[0], got[0] + len(got))) or got[0] <= st_['top']):
+                            st_['err'] = "{}: a block allotted while the clause was being read got identifiers {}.. but {} was already in use".format(what, got[:3], st_['top'])
+                        st_['top'] = max([st_['top']] + got)
+                        if got:
+                            yield got[0] if len(got) % 2 else -got[0]
+                    elif it != 0:
+                        yield it
+            F.add_clause(lits_())
+            if st_['err']:
+                raise Violation(st_['err'])
+            row = list(F[len(F) - 1]) if case['cls'] == 'CNF' else [l for (_, l) in F[len(F) - 1][:-2]]
+            if row and max(map(abs, row)) > st_['top']:
+                raise_top = max(map(abs, row))
+                if raise_top > top:
+                    raised_between = True
+                st_['top'] = raise_top
+            top = st_['top']
+            labels.add('lazy-clause')
         elif kind == 'add_clauses_from':
             # a batch whose iterable may be lazy and may allot variables between two clauses;
             # model: the same as inserting the items one by one
@@ -660,7 +687,7 @@ def strat_history(draw):
     S = lambda lo, hi: draw(I(lo, hi))      # noqa
     for _ in range(nsteps):
         kind = draw(st.sampled_from(GROUP_OPS + ['add_clause', 'add_clause', 'add_clause_nocheck', 'builder_nocheck',
-                                                 'builder_check', 'update_variable_number', 'add_clauses_from', 'add_constraint', 'refused']))
+                                                 'builder_check', 'update_variable_number', 'add_clauses_from', 'add_constraint', 'refused', 'add_clause_lazy']))
         lits = draw(st.lists(st.integers(-40, 40), max_size=5))
         if kind == 'new_variable':
             ops.append([kind])
@@ -682,6 +709,9 @@ def strat_history(draw):
             ops.append([kind, n, draw(st.lists(st.sampled_from(P), unique_by=tuple)) if P else []])
         elif kind in ('add_clause', 'add_clause_nocheck'):
             ops.append([kind, lits])
+        elif kind == 'add_clause_lazy':
+            item = st.one_of(st.integers(-40, 40), st.integers(-40, 40), st.lists(I(1, 3), min_size=1, max_size=2))
+            ops.append([kind, draw(st.lists(item, min_size=1, max_size=5))])
         elif kind == 'refused':
             ops.append([kind, draw(st.sampled_from(['zero-literal', 'string-literal', 'parity-zero', 'cardinality-zero', 'batch', 'bad-operator', 'linear-zero'])), lits])
         elif kind == 'add_clauses_from':
@@ -710,6 +740,6 @@ SUBCHECKS = [
              rule="every sub-command of the catalogue through cnfgen (with -T chains) and pbgen built in-process; same structural oracle on the returned object, and for cnfgen with -T the declared number of variables equals the documented function (x k, x 3, x 2k, N) of the number declared without the chain; enumerated: formulas with variables but no clauses (randkcnf k n 0, ptn 4, or 2 0 -T atmost 2 2, ...) through every transformation and pairs of transformations",
              required_labels=['cnfgen', 'pbgen', 'no-clauses', 'count-after-chain']),
     SubCheck('history', run_history, strategy=strat_history, quick=1500, thorough=60000,
-             rule="op logs (1..30 steps) on CNF and OPB: all eleven group constructors with generated shapes (empty groups included), add_clause(check=True) with arbitrary literals up to 40, add_clause(check=False) and check=False builders restricted to declared variables, checked builders, update_variable_number, add_clauses_from on lists and on lazy iterables that allot variables/blocks between two clauses, OPB add_constraint/add_constraints_from with (coefficient, literal) pairs given as tuples or as lists and all five operators, insertions that must be refused (literal 0, a string literal, an unknown operator, through add_clause / add_clauses_from / add_parity / cardinality_leq / add_linear / add_constraint: ValueError, no row kept, declared count unchanged); model: the largest identifier mentioned/allotted so far; after every step: new group contiguous and strictly above the model value, declared count never decreases and covers the model value; at the end the structural oracle + empty H1 record; non-trivial: >=2 group creations separated by an insertion that raised the count",
-             required_labels=GROUP_OPS + ['CNF', 'OPB', 'allot-inside-batch', 'constraint-pairs:list', 'constraint-pairs:tuple', 'refused-insertion']),
+             rule="op logs (1..30 steps) on CNF and OPB: all eleven group constructors with generated shapes (empty groups included), add_clause(check=True) with arbitrary literals up to 40, add_clause(check=False) and check=False builders restricted to declared variables, checked builders, update_variable_number, add_clauses_from on lists and on lazy iterables that allot variables/blocks between two clauses, a single clause given as a generator that allots blocks while it is read and yields only some of the new variables, OPB add_constraint/add_constraints_from with (coefficient, literal) pairs given as tuples or as lists and all five operators, insertions that must be refused (literal 0, a string literal, an unknown operator, through add_clause / add_clauses_from / add_parity / cardinality_leq / add_linear / add_constraint: ValueError, no row kept, declared count unchanged); model: the largest identifier mentioned/allotted so far; after every step: new group contiguous and strictly above the model value, declared count never decreases and covers the model value; at the end the structural oracle + empty H1 record; non-trivial: >=2 group creations separated by an insertion that raised the count",
+             required_labels=GROUP_OPS + ['CNF', 'OPB', 'allot-inside-batch', 'constraint-pairs:list', 'constraint-pairs:tuple', 'refused-insertion', 'lazy-clause']),
 ]
